@@ -192,6 +192,7 @@ class WcMatchInit(Contract):
     missing patterns become the empty pattern OF THE ROOT'S TYPE, on_init runs before the patterns are compiled."""
     module, qual, props = 'wcmatch', 'WcMatch.__init__', ('C11', 'C14', 'C15', 'C18')
     allowed_raises = ('TypeError',)
+    obligation_props = {'WcMatch.__init__.run_state_is_initialised': ('C15',)}
     assumptions = ('_norm_slash / _parse_flags / _add_sep / _get_cwd / on_init / _compile are abstract here (own contracts or the harness)',)
 
     def inputs(self):
@@ -228,6 +229,10 @@ class WcMatchInit(Contract):
 
         def opaque(name):
             def h(eng, node, st, args):
+                if name == 'on_init':
+                    f = st.fields
+                    ready = z3.And(z3.Not(pyvc.truthy(f['_abort'])), pyvc.eq(f['_skipped'], Int(0))) if '_abort' in f and '_skipped' in f else z3.BoolVal(False)
+                    eng.oblige('WcMatch.__init__.run_state_is_initialised_before_the_on_init_hook_runs_(a_kill_from_on_init_survives_construction)', st, ready, node)
                 st.ghost['$order'] = st.ghost['$order'] + [(name, list(args))]
                 return U('call.' + name, *args) if args else ObjV(z3.Const('call.' + name, Obj))
             return h
